@@ -328,6 +328,9 @@ def ocaml_build():
     srcs = [os.path.join(COQ, f) for f in os.listdir(COQ) if f.endswith(".v")] + [os.path.join(d, "driver.ml"), os.path.join(d, "extract.v")]
     if os.path.exists(exe) and all(os.path.getmtime(x) <= os.path.getmtime(exe) for x in srcs):
         return True, ""
+    ok, out = coq_make(["EngineExtract.vo"])
+    if not ok:
+        return False, out
     rc, out = sh("flock %s/.lock sh -c 'coqc -noglob -Q %s Parsley extract.v && "
                  "ocamlfind ocamlopt -O3 model.mli model.ml driver.ml -o model_driver'" % (COQ, COQ), cwd=d, timeout=1800)
     return rc == 0, out
